@@ -19,9 +19,12 @@
 //!                 succeeding convergents differ by less than 10^-24 or after
 //!                 maxN + 2 = 1002 convergents
 //!   * pow x y   : x = 0 -> (y = 0 ? 1 : 0);  x = 1 -> 1;  else exp(y * ln x)
-//!   * expCmp    : Taylor partial sums of e^x with the Lagrange remainder
-//!                 bound * x^(k+1)/(k+1)!; decide as soon as `compare` is
-//!                 strictly above sum+err (GT) or strictly below sum-err (LT)
+//!   * expCmp    : Taylor partial sums of e^x with the Lagrange remainder bound
+//!                 err = bound * |x^(k+1)/(k+1)!| (a magnitude; identical to the
+//!                 signed product for x >= 0); stop without a conclusion before
+//!                 adding a term with |term| < 10^-24 or after max_n terms; decide
+//!                 as soon as `compare` is strictly above sum+err (GT) or
+//!                 strictly below sum-err (LT)
 
 use num_bigint::BigInt;
 use num_integer::Integer;
@@ -221,7 +224,8 @@ impl Fx {
             }
             k_fx += &self.unit;
             let next_term = self.div(&self.mul(&term, x), &k_fx);
-            let err = &next_term * BigInt::from(bound);
+            // remainder bound: a magnitude, |x^(k+1)/(k+1)!| * bound
+            let err = (&next_term * BigInt::from(bound)).abs();
             sum += &term;
             term = next_term;
             done += 1;
